@@ -131,3 +131,37 @@ Theorem C17_model_step_is_the_local_step : forall t v t' sends, exec t v = Some 
     forall y, y <> target v -> lookup t' y = lookup (ensure t (target v)) y.
 Proof. exact exec_lexec. Qed.
 Print Assumptions C17_model_step_is_the_local_step.
+
+(* THE MERGE CALLBACKS.  async_union_and_execute(a, b, fn) runs fn(a, b) exactly where its walk attaches a root to the other
+   tree ([cb_of]; compared with the callbacks the real container reports, per epoch, on every run).  [stepsL] = deliveries
+   with the log of callbacks fired.  Along every delivery order of a pool of such unions, at every moment: the callback
+   edges form a forest (each joined two items the earlier ones did not connect), "same root" is exactly "connected by the
+   callback edges so far" (every merge is reported once and nothing else merges), and every edge is an issued union.  Once
+   no visit is pending they are a spanning forest of the union graph. *)
+From Ygm Require Import DisjointForest.
+Theorem C17_callbacks_span_the_forest : forall es t pool log,
+  stepsL ([], unionsb (map (pair true) es), []) (t, pool, log) ->
+  forest log /\ incl log es /\ forall a b, conn t a b <-> cl log a b.
+Proof. exact callbacks_span_the_forest. Qed.
+Print Assumptions C17_callbacks_span_the_forest.
+
+Theorem C17_callbacks_are_a_spanning_forest : forall es t log,
+  stepsL ([], unionsb (map (pair true) es), []) (t, [], log) ->
+  forest log /\ incl log es /\ forall a b, cl log a b <-> R es a b.
+Proof. exact callbacks_are_a_spanning_forest. Qed.
+Print Assumptions C17_callbacks_are_a_spanning_forest.
+
+(* one delivery either leaves "same root" unchanged and fires no callback, or attaches the root of one tree to another tree
+   (the two were not connected) and fires exactly the walk's callback *)
+Theorem C17_a_delivery_merges_and_reports_or_does_neither : forall es t v t' sends,
+  Inv t -> VI t v -> CI t v -> WI es t v -> exec t v = Some (t', sends) ->
+  Forall (WI es t') sends /\
+  ((same t t' /\ cb_of t v = []) \/
+   (exists ab me child op oi orank, v = Walk (Some ab) me child op oi orank /\ ~ conn t me op /\ merged t t' me op /\ cb_of t v = [ab])).
+Proof. exact exec_shape. Qed.
+Print Assumptions C17_a_delivery_merges_and_reports_or_does_neither.
+
+Theorem C17_callback_is_the_local_function : forall t v i,
+  lookup (ensure t (DisjointLocal.target v)) (DisjointLocal.target v) = Some i -> cb_of t v = lcb (DisjointLocal.target v) i v.
+Proof. exact cb_of_lcb. Qed.
+Print Assumptions C17_callback_is_the_local_function.
